@@ -40,9 +40,9 @@ func init() { simcore.Register(Engine{}) }
 func (Engine) Name() string    { return "classic" }
 func (Engine) Props() []string { return []string{"C02", "C04"} }
 func (Engine) Budget(tier, prop string) (int, int) {
-	// ~0.25 s of CPU per run
+	// CPU per run: ~0.25 s (quick, ~42 steps), ~0.45 s (thorough, ~70 steps)
 	if tier == "thorough" {
-		return 40000, 1100
+		return 30000, 1100
 	}
 	return 2400, 150
 }
@@ -59,6 +59,8 @@ func (Engine) Describe() simcore.Description {
 			"C04 'weighted product per share never falls by more than that precision' is checked as: V/S after the call, with the single Pow-derived quantity moved by the tolerance above in the pool's favour, is >= V/S before, in 768-bit logarithms; all-asset joins/exits and every stableswap swap are checked exactly in rationals with no tolerance",
 			"closed-cycle probes allow the actor a gain of reserve*(1-exp(-eps/w)) in the cycle's denomination, eps being the sum of the per-call V/S tolerances of the cycle (0 for stableswap and for join-all/exit-all)",
 			"a panic that escapes a message handler is a failed message (state must be unchanged); it is counted, not reported under C02/C04",
+			"a weighted swap that pays out the WHOLE reported reserve (Pow rounded to 0) is reported under C02 (pool-balance/weighted-reserve-emptied-report-stale); its result is within the power precision of the exact formula, so C04 does not report it; the pool then leaves the workload and the run goes on",
+			"the per-message decomposition of multi-hop / exit-and-swap messages into pool operations is taken from the token_swapped / pool_joined / pool_exited events and is cross-checked: the replayed reserves and shares must equal the real post-state, otherwise the run is a harness error",
 		},
 	}
 }
